@@ -421,6 +421,9 @@ def _member_names(ctx):
 
 @st.composite
 def enums(draw, ctx: Ctx, used):
+    if ctx.prof.compilable:
+        # an enum nested in a class must not hide one of an enclosing scope
+        used = set(used) | {e[2] for e in ctx.enums}
     nm = draw(_ident(ENUM_POOL, r'[A-Z][a-zA-Z0-9]{0,5}', used))
     n = draw(st.integers(1, 5))
     es = []
@@ -635,11 +638,14 @@ def functions(draw, ctx: Ctx, path):
     classes_here = {d.name for d in ctx.decls if d.path == path and d.kind != 'func'} | \
         {n for (p_, n) in ctx.locked if p_ == path}
     if prof.compilable:
-        classes_here = classes_here | ctx.var_names.get(path, set())
+        classes_here = classes_here | ctx.var_names.get(path, set()) | \
+            {pth[len(path)] for pth in ctx.used if len(pth) > len(path) and pth[:len(path)] == path}
     name = draw(lower_name(pool, classes_here))
     ctx.fn_count[(path, name)] = ctx.fn_count.get((path, name), 0) + 1
     r = draw(rets(ctx, tps))
     a = draw(arg_lists(ctx, tps))
+    if prof.compilable and any(x.name == name for x in a):
+        a = tuple(replace(x, name=x.name + '_') if x.name == name else x for x in a)
     fn = M.Func(r, name, a, template)
     if prof.compilable:
         key = (path, name, tuple(M.replace(x.type, const=False) if x.type.ptr == '' else x.type
@@ -792,8 +798,10 @@ def contents(draw, ctx: Ctx, path: Tuple[str, ...], depth_left: int, max_items=N
             used = ctx.names(path)
             ns_used = used
             if prof.compilable:
+                ns_used = set(used) | {n_ for (p_, n_) in ctx.fn_count if p_ == path}
+            if prof.compilable:
                 # a namespace must not hide the foreign namespaces / enclosing names it refers to
-                ns_used = set(used) | {'gtsam', 'ns', 'std', 'Eigen'} | set(path) | \
+                ns_used = set(ns_used) | {'gtsam', 'ns', 'std', 'Eigen'} | set(path) | \
                     {c for pth in ctx.used for c in pth}  # qualified names stay unambiguous
                 if not path:
                     ns_used -= {'gtsam'} - {c for pth in ctx.used for c in pth}
